@@ -20,8 +20,9 @@ CHECKS = {
    text="History-level half of C02: the monitor treats a block as potentially certified as soon as correct voters plus the entire Byzantine weight reach the quorum, whether or not a certificate was assembled, and checks uniqueness per block number, that no correct validator later votes against or below it, and that every certificate appearing anywhere is for that block. The adversary assembles boundary timeout certificates (hiding high votes, several distinct votes). The pure decision function over all conceivable certificates is not claimed (DESIGN section 6).",
    note=BFT_NOTE),
  "C03": dict(engine="bftsim", design="DESIGN.md section 5 (C03)",
-   technique="deterministic simulation with crash injection between events and inside durable writes (applied / lost); vote-history and write-ahead oracles",
-   text="Every message a correct validator signs is examined at the instant it reaches the outbound channel, over all incarnations of the validator: no two different commit votes per view, no commit vote after a timeout vote for that view, signed views monotone, and the durable replica state already covers the message (write-ahead). Crashes are injected between any two events and inside the k-th durable write, applied or not; restarts load only the durable state.",
+   technique="deterministic simulation with fault injection: enumeration of a crash inside every durable write (applied / lost) of deterministic base histories, plus seeded sampling of crash points in swarm executions; vote-history and write-ahead oracles",
+   level="fault_enumeration",
+   text="Every message a correct validator signs is examined at the instant it reaches the outbound channel, over all incarnations of the validator: no two different commit votes per view, no commit vote after a timeout vote for that view, signed views monotone, and the durable replica state already covers the message (write-ahead). Crashes are injected between any two events and inside the k-th durable write, applied or not; restarts load only the durable state. Two populations: 'crashy' samples crash points in long swarm executions; 'crashenum' ENUMERATES them - for a deterministic base history (committee of 2-4, about ten views, network faults, late duplicates, Byzantine validators where the weights allow) every (correct node, durable write k <= 40, applied/lost) is one run in which that node dies inside that write, is restarted from its durable state and is shown old messages again (3 base histories in the quick tier, 150 in the thorough tier; the evidence counts points fired and bases not covered exhaustively).",
    note=BFT_NOTE + " Leader proposals are outside the write-ahead oracle by design (DESIGN section 5, C03)."),
  "C05": dict(engine="bftsim", design="DESIGN.md section 5 (C05)",
    technique="deterministic simulation; per-step replica snapshots (hook H3) checked for monotonicity, justification, certificate genuineness against the signing history, self-justifying output",
